@@ -78,21 +78,8 @@ func (w *World) noteCase(op Op) {
 
 func aligned(v View) bool { return v.Channels() == 0 || v.Len()%v.Channels() == 0 }
 
-// appendJudgeable: a growing append with an unaligned total is outside the specification
-// (the runtime's capacity may not admit the alignment), everything else is specified.
-func appendJudgeable(d, s View) bool {
-	if d.Ty() != s.Ty() {
-		return false
-	}
-	if d.Channels() != s.Channels() {
-		return true // must panic
-	}
-	nl := d.Len() + s.Len()
-	if nl <= d.Cap() {
-		return true
-	}
-	return d.Channels() == 0 || nl%d.Channels() == 0
-}
+// appendJudgeable: Append needs operands of one element type (Go generics); everything else is specified.
+func appendJudgeable(d, s View) bool { return d.Ty() == s.Ty() }
 
 func smallCodes(v View) bool {
 	data, ok := v.Data()
@@ -199,6 +186,10 @@ func RandomHistory(w *World, rng *rand.Rand, o HistOpts) {
 			}
 			w.noteCase(Op{K: "Slice", A: []int{vi, s, e}})
 		case "AppendSample":
+			if isFloatTy(v.Ty()) && rng.Intn(3) == 0 {
+				w.AppendSampleFloat(vi, oddFloats[rng.Intn(len(oddFloats))])
+				continue
+			}
 			w.Do(Op{K: "AppendSample", A: []int{vi, int(w.NextStamp())}})
 		case "SetSample":
 			i := rng.Intn(v.Len()+2) - 1
@@ -219,6 +210,10 @@ func RandomHistory(w *World, rng *rand.Rand, o HistOpts) {
 			}
 			w.Do(Op{K: "Append", A: []int{vi, si}})
 		case "Write":
+			if isFloatTy(v.Ty()) && rng.Intn(3) == 0 {
+				w.WriteFloats(vi, w.floatsFor(rng, rng.Intn(v.Len()+3)))
+				continue
+			}
 			n := rng.Intn(v.Len() + 3)
 			t := KindOf(v.Ty())
 			if o.CrossType {
